@@ -43,6 +43,8 @@ type vfsState struct {
 	faults  int  // remaining injected faults
 	crashOn bool // crash points enabled
 	crashed bool
+	faulted []string
+	order   []int // thread ids of the hooked operations, in execution order
 	nextFd  int
 	// NoExist: directories considered present (parents of every file)
 }
@@ -66,14 +68,37 @@ func (v *vfsState) abs(p string) string {
 	return filepath.Clean(p)
 }
 
+// hookedCaller: crash / fault / scheduling points are the file-system calls made by csvq's
+// lib/file package and by go-file (the calls that the native replay can intercept through a build
+// overlay); other calls (data reads/writes through *os.File, path probing in lib/query) are plain
+// operations on the model.
+func hookedCaller(fr *frame) bool {
+	if fr == nil || fr.caller == nil || fr.caller.fn == nil || fr.caller.fn.Pkg == nil {
+		return false
+	}
+	top := fr.caller.fn
+	for top.Parent() != nil {
+		top = top.Parent()
+	}
+	if n := top.Name(); strings.HasPrefix(n, "Verif") || strings.HasPrefix(n, "verif") {
+		return false // calls made by the harness itself are not interceptable natively
+	}
+	p := fr.caller.fn.Pkg.Pkg.Path()
+	return strings.HasSuffix(p, "csvq/lib/file") || strings.Contains(p, "mithrandie/go-file")
+}
+
 // fsPoint marks one file-system operation; returns true if an injected fault makes it fail.
-func fsPoint(op, path string) bool {
-	used("file system (model: in-memory POSIX semantics; every call is a scheduling, crash and fault point)")
+func fsPoint(fr *frame, op, path string) bool {
+	used("file system (model: in-memory POSIX semantics; calls from lib/file and go-file are scheduling, crash and fault points)")
+	if !hookedCaller(fr) {
+		return false
+	}
 	th := 0
 	if sched != nil && sched.cur != nil {
 		th = sched.cur.id
 	}
 	vfs.ops = append(vfs.ops, fmt.Sprintf("p%d:%s(%s)", th, op, filepath.Base(path)))
+	vfs.order = append(vfs.order, th)
 	if sched != nil && len(sched.threads) > 1 {
 		sched.yield(nil)
 	}
@@ -88,6 +113,7 @@ func fsPoint(op, path string) bool {
 		if eng.Choice("fault", 2) == 1 {
 			vfs.faults--
 			vfs.ops = append(vfs.ops, fmt.Sprintf("p%d:FAULT", th))
+			vfs.faulted = append(vfs.faulted, op)
 			return true
 		}
 	}
@@ -180,7 +206,7 @@ func init() {
 	osx := map[string]externalFn{
 		"os.Stat": func(fr *frame, a []value) value {
 			p := vfs.abs(goStr(a[0]))
-			if fsPoint("stat", p) {
+			if fsPoint(fr, "stat", p) {
 				return tuple{iface{}, pathError(fr, "stat", p, eIO)}
 			}
 			n, ok := vfs.files[p]
@@ -203,7 +229,7 @@ func init() {
 					op = "create-excl"
 				}
 			}
-			if fsPoint(op, p) {
+			if fsPoint(fr, op, p) {
 				return tuple{nilFile, pathError(fr, "open", p, eIO)}
 			}
 			n, ok := vfs.files[p]
@@ -235,7 +261,7 @@ func init() {
 		},
 		"os.Remove": func(fr *frame, a []value) value {
 			p := vfs.abs(goStr(a[0]))
-			if fsPoint("remove", p) {
+			if fsPoint(fr, "remove", p) {
 				return pathError(fr, "remove", p, eIO)
 			}
 			if _, ok := vfs.files[p]; !ok {
@@ -246,7 +272,7 @@ func init() {
 		},
 		"os.Rename": func(fr *frame, a []value) value {
 			from, to := vfs.abs(goStr(a[0])), vfs.abs(goStr(a[1]))
-			if fsPoint("rename", from) {
+			if fsPoint(fr, "rename", from) {
 				return pathError(fr, "rename", from, eIO)
 			}
 			n, ok := vfs.files[from]
@@ -265,7 +291,7 @@ func init() {
 		},
 		"os.Mkdir": func(fr *frame, a []value) value {
 			p := vfs.abs(goStr(a[0]))
-			if fsPoint("mkdir", p) {
+			if fsPoint(fr, "mkdir", p) {
 				return pathError(fr, "mkdir", p, eIO)
 			}
 			if _, ok := vfs.files[p]; ok {
@@ -296,7 +322,7 @@ func init() {
 			if h == nil {
 				return errorValue(fr, "invalid argument")
 			}
-			if fsPoint("close", h.path) {
+			if fsPoint(fr, "close", h.path) {
 				return pathError(fr, "close", h.path, eIO)
 			}
 			if h.closed {
@@ -322,7 +348,7 @@ func init() {
 			if h.flag&(oWRONLY|oRDWR) == 0 {
 				return tuple{0, pathError(fr, "write", h.path, eBADF)}
 			}
-			if fsPoint("write", h.path) {
+			if fsPoint(fr, "write", h.path) {
 				return tuple{0, pathError(fr, "write", h.path, eIO)}
 			}
 			n := h.node
@@ -350,7 +376,7 @@ func init() {
 			if h == nil || h.closed {
 				return tuple{0, errorValue(fr, "file already closed")}
 			}
-			if fsPoint("read", h.path) {
+			if fsPoint(fr, "read", h.path) {
 				return tuple{0, pathError(fr, "read", h.path, eIO)}
 			}
 			if len(b) == 0 {
@@ -370,7 +396,7 @@ func init() {
 				return tuple{int64(0), errorValue(fr, "file already closed")}
 			}
 			off, whence := int(asInt64(a[1])), int(asInt64(a[2]))
-			if fsPoint("seek", h.path) {
+			if fsPoint(fr, "seek", h.path) {
 				return tuple{int64(0), pathError(fr, "seek", h.path, eIO)}
 			}
 			switch whence {
@@ -392,7 +418,7 @@ func init() {
 			if h == nil || h.closed {
 				return errorValue(fr, "file already closed")
 			}
-			if fsPoint("truncate", h.path) {
+			if fsPoint(fr, "truncate", h.path) {
 				return pathError(fr, "truncate", h.path, eIO)
 			}
 			sz := int(asInt64(a[1]))
@@ -406,12 +432,22 @@ func init() {
 		},
 		"path/filepath.Glob": func(fr *frame, a []value) value {
 			pat := goStr(a[0])
-			if fsPoint("glob", pat) {
+			if fsPoint(fr, "glob", pat) {
 				return tuple{[]value(nil), iface{}}
 			}
 			var names []string
+			rel := !filepath.IsAbs(pat)
+			apat := pat
+			if rel {
+				apat = filepath.Join(vfs.cwd, pat)
+			}
 			for p := range vfs.files {
-				if ok, _ := filepath.Match(pat, p); ok {
+				if ok, _ := filepath.Match(apat, p); ok {
+					if rel {
+						if r, err := filepath.Rel(vfs.cwd, p); err == nil {
+							p = r
+						}
+					}
 					names = append(names, p)
 				}
 			}
@@ -440,6 +476,7 @@ func init() {
 		"github.com/mithrandie/go-file/v2.TryLockEX": flockOK,
 		"github.com/mithrandie/go-file/v2.Unlock":    flockOK,
 		"time.After": func(fr *frame, a []value) value {
+			sched.sleepYield()
 			c := newChan(1)
 			c.buf = append(c.buf, zero(namedType(fr, "time", "Time")))
 			return c
@@ -527,6 +564,21 @@ func init() {
 		}()
 		call(fr.i, fr, token.NoPos, a[0], nil)
 		return false
+	}
+	intrinsics["verifFaultedOps"] = func(fr *frame, a []value) value {
+		return strings.Join(vfs.faulted, ",")
+	}
+	intrinsics["verifYield"] = func(fr *frame, a []value) value {
+		th := 0
+		if sched != nil && sched.cur != nil {
+			th = sched.cur.id
+		}
+		vfs.ops = append(vfs.ops, fmt.Sprintf("p%d:yield", th))
+		vfs.order = append(vfs.order, th)
+		if sched != nil && len(sched.threads) > 1 {
+			sched.yield(nil)
+		}
+		return nil
 	}
 	intrinsics["verifFSTrace"] = func(fr *frame, a []value) value {
 		return strings.Join(vfs.ops, " ")
